@@ -1023,6 +1023,12 @@ evaluate() const {
   case T_requires_expr:
     return Result();
 
+  case T_lambda:
+  case T_default:
+  case T_delete:
+    // Not something we can evaluate to a constant.
+    return Result();
+
   default:
     cerr << "**invalid operand**\n";
     abort();
@@ -1314,6 +1320,10 @@ determine_type() const {
 
   case T_requires_expr:
     return bool_type;
+
+  case T_default:
+  case T_delete:
+    return nullptr;
 
   default:
     cerr << "**invalid operand**\n";
